@@ -1043,8 +1043,14 @@ let reader_main file =
              | Reader.CErr Reader.EBulk -> (List.rev acc, "invalid_request,_expected_array", net)
              | Reader.CInline -> (List.rev acc, "INLINE", net) in
          let (mcmds, merr, _) = go (ncmds + 1) Reader.rd_init net0 [] in
-         if merr = "INLINE" then incr inl
-         else begin
+         if merr = "INLINE" then begin
+           incr inl;
+           (* inline (telnet) syntax is outside the model, but no input may make the reader panic *)
+           if String.length !ierr >= 5 && String.sub !ierr 0 5 = "PANIC" then begin
+             incr specdiffs;
+             Printf.printf "SPECDIFF %s the reader panicked on inline input: %s\n" id !ierr
+           end
+         end else begin
            let show (nm, args) = tok_out (sb nm) ^ " " ^ String.concat " " (List.map (fun a -> tok_out (sb a)) args) in
            let mopts (args : Byte.byte list list) =
              String.concat "," (List.map (fun on ->
